@@ -12,3 +12,9 @@ extern cfg_opt_t *g_getopt_result;
 extern const char *g_getopt_name;
 extern cfg_t *g_getopt_cfg;
 #endif
+/* (appended) cfg_dupopt_array / cfg_init_defaults carriers */
+#ifndef CFGV_GHOST2_H
+#define CFGV_GHOST2_H
+extern int g_dup_calls; extern cfg_opt_t *g_dup_arg, *g_dup_result;
+extern int g_initdef_calls; extern cfg_t *g_initdef_arg;
+#endif
